@@ -11,56 +11,9 @@ using pbt::Ctx;
 using pbt::Verdict;
 using namespace sh;
 
-namespace {
-
 #define CHECK(cond, oracle, msg) do { if (!(cond)) return pbt::fail(oracle, msg); } while (0)
 
-struct View { std::string status, type, args, vclass, tree, inputs, term, text; };
-
-std::string typeStr(const ccl::semantic::ParsingInfo& p) {
-  if (!p.exprType.has_value()) return "-";
-  if (std::holds_alternative<ccl::rslang::LogicT>(*p.exprType)) return "LOGIC";
-  return std::get<ccl::rslang::Typification>(*p.exprType).ToString();
-}
-View viewOf(const RSForm& f, EntityUID uid) {
-  View v;
-  const auto& p = f.GetParse(uid);
-  v.status = p.status == ccl::semantic::ParsingStatus::VERIFIED ? "verified" : p.status == ccl::semantic::ParsingStatus::INCORRECT ? "incorrect" : "unknown";
-  v.type = typeStr(p);
-  if (p.arguments.has_value()) for (auto& a : *p.arguments) v.args += a.name + ":" + a.type.ToString() + ",";
-  v.vclass = std::to_string(static_cast<int>(p.valueClass));
-  v.tree = p.ast ? ccl::rslang::AST2String::Apply(*p.ast) : std::string("-");
-  std::set<std::string> in; for (auto u : f.RSLang().Graph().InputsFor(uid)) in.insert(f.Contains(u) ? f.GetRS(u).alias : "?" + std::to_string(u));
-  for (auto& a : in) v.inputs += a + ",";
-  v.term = f.GetText(uid).term.Nominal();
-  v.text = f.GetText(uid).definition.Str();
-  return v;
-}
-
-Verdict compareWith(const RSForm& inc, const RSForm& fresh, const std::string& how, const std::string& after, bool textsComparable) {
-  std::vector<EntityUID> li, lf;
-  for (auto u : inc.List()) li.push_back(u);
-  for (auto u : fresh.List()) lf.push_back(u);
-  CHECK(li == lf, std::string("rebuild-order-") + how, "a schema rebuilt (" + how + ") from the same content has another list after " + after);
-  for (auto uid : li) {
-    const auto& rs = inc.GetRS(uid);
-    CHECK(fresh.Contains(uid) && fresh.GetRS(uid).alias == rs.alias && fresh.GetRS(uid).definition == rs.definition && fresh.GetRS(uid).type == rs.type, std::string("rebuild-content-") + how,
-          "rebuilt (" + how + ") schema differs in content at " + rs.alias + " after " + after);
-    const View a = viewOf(inc, uid), b = viewOf(fresh, uid);
-    const std::string who = rs.alias + ":=='" + rs.definition + "' after " + after + " [vs " + how + "]";
-    CHECK(a.status == b.status, "stale-status", who + ": incremental says " + a.status + ", from scratch " + b.status);
-    CHECK(a.type == b.type, "stale-typification", who + ": incremental type " + a.type + ", from scratch " + b.type);
-    CHECK(a.args == b.args, "stale-arguments", who + ": incremental args " + a.args + ", from scratch " + b.args);
-    CHECK(a.vclass == b.vclass, "stale-value-class", who + ": incremental value class " + a.vclass + ", from scratch " + b.vclass);
-    CHECK(a.tree == b.tree, "stale-tree", who + ": incremental tree " + a.tree + ", from scratch " + b.tree);
-    CHECK(a.inputs == b.inputs, "stale-dependencies", who + ": incremental inputs {" + a.inputs + "}, from scratch {" + b.inputs + "}");
-    if (textsComparable) {
-      CHECK(a.term == b.term, "stale-term", who + ": resolved term '" + a.term + "', from scratch '" + b.term + "'");
-      CHECK(a.text == b.text, "stale-text", who + ": resolved definition text '" + a.text + "', from scratch '" + b.text + "'");
-    }
-  }
-  return pbt::pass();
-}
+namespace {
 
 Verdict historyProp(Ctx& c) {
   GenOpts o; o.maxOps = 12;
